@@ -243,6 +243,7 @@ func execC13(sc *Scenario, env *Env) *Result {
 		return res
 	}
 	res.Hash = fmt.Sprintf("%016x-%s", hashWorld(wa, nil), kind)
+	res.Digest = outA.Disk.Digest() + "|" + outB.Disk.Digest()
 	if outA.Panic != "" || outB.Panic != "" {
 		res.Status, res.Note = "crash", "panic: "+shortPanic(outA.Panic+outB.Panic)
 		if where, model := panicOrigin(outA.Panic + outB.Panic); model {
